@@ -42,6 +42,64 @@ class _PmatInterp(S.Interp):
         return Opaque("norm of a vector that is not one of the input axes")
 
 
+NOCOPY = ("np.asarray", "np.asanyarray", "np.ascontiguousarray", "np.atleast_1d", "np.atleast_2d", "np.squeeze", "np.ravel")
+
+
+def check_no_inplace_on_arguments(fn, where):
+    """fail-closed syntactic check: the function never modifies (augmented assignment, subscript assignment,
+    `out=` keyword) a name that is — or may alias — one of its array arguments.  Aliases: the parameter itself,
+    `x = <alias>`, `x = np.asarray(<alias>, ...)` and friends, views `<alias>.T / .transpose(...) / .reshape(...) /
+    .view(...) / [<slice>]`.  Re-binding a name to anything else ends the aliasing."""
+    alias = {a.arg for a in fn.args.args}
+
+    def may_alias(e):
+        if isinstance(e, ast.Name):
+            return e.id in alias
+        if isinstance(e, ast.Attribute) and e.attr in ("T", "real"):
+            return may_alias(e.value)
+        if isinstance(e, ast.Subscript):
+            return may_alias(e.value)
+        if isinstance(e, ast.Call):
+            f = ast.unparse(e.func)
+            if f in NOCOPY and e.args:
+                return may_alias(e.args[0])
+            if isinstance(e.func, ast.Attribute) and e.func.attr in ("transpose", "reshape", "view", "swapaxes", "squeeze", "ravel"):
+                return may_alias(e.func.value)
+        return False
+
+    def walk(body):
+        for st in body:
+            if isinstance(st, ast.AugAssign):
+                base = st.target
+                while isinstance(base, (ast.Subscript, ast.Attribute)):
+                    base = base.value
+                if isinstance(base, ast.Name) and base.id in alias:
+                    raise TranslateError("%s:%d: `%s` modifies in place an array that may be the caller's argument" % (where, st.lineno, ast.unparse(st)[:60]))
+            elif isinstance(st, ast.Assign):
+                for t in st.targets:
+                    if isinstance(t, ast.Subscript):
+                        base = t
+                        while isinstance(base, (ast.Subscript, ast.Attribute)):
+                            base = base.value
+                        if isinstance(base, ast.Name) and base.id in alias:
+                            raise TranslateError("%s:%d: `%s` writes into an array that may be the caller's argument" % (where, st.lineno, ast.unparse(st)[:60]))
+                for t in st.targets:
+                    if isinstance(t, ast.Name):
+                        if may_alias(st.value):
+                            alias.add(t.id)
+                        else:
+                            alias.discard(t.id)
+            for n in ast.walk(st):
+                if isinstance(n, ast.Call):
+                    for k in n.keywords:
+                        if k.arg == "out" and may_alias(k.value):
+                            raise TranslateError("%s:%d: `out=` targets an array that may be the caller's argument" % (where, n.lineno))
+            for sub in ("body", "orelse", "finalbody"):
+                if hasattr(st, sub) and isinstance(getattr(st, sub), list) and not isinstance(st, ast.FunctionDef):
+                    walk(getattr(st, sub))
+    walk(fn.body)
+
+
 def vars_mat(prefix, n):
     return Arr([[('v', "%s%d%d" % (prefix, i + 1, j + 1)) for j in range(n)] for i in range(n)])
 
@@ -54,6 +112,7 @@ def read_pmat(repo):
         if f not in mod.funcs:
             raise TranslateError("%s: function %s not found" % (REL, f))
         out["lines"][f] = mod.funcs[f].lineno
+        check_no_inplace_on_arguments(mod.funcs[f], "%s %s" % (REL, f))
     # ---- KelvinMandel_Matrix ------------------------------------------------------------
     out["km"] = {}
     for dim, n in ((2, 3), (3, 6)):
